@@ -210,6 +210,14 @@ theorem C05_roundtrip (inp : Input) (hs : inp.srcNew = false) (hd : inp.destNew 
   have : (plan inp).srcFields = sideFields inp.src false := by simp [plan, hs]
   exact (sideFields_plain_flags inp.src c.rd (this ▸ h1)).1
 
+/-- round trip AT THE LEAVES, for all inputs of `PlainOk`: a source leaf whose only candidate is a destination leaf of identical
+    type (assignment) that in turn has it as its only candidate holds ITS OWN VALUE again after `new(S).FromX(s.ToX())` — every
+    line of the specification's round-trip list (`specRT`) is a line of the model's (`obsRT`: FromX's statements executed on the
+    result of ToX). With `C05_obs_spec_counts` and `C05_part_spec` every key the C05 check asserts on region WF is covered by
+    a theorem about the model. -/
+theorem C05_roundtrip_leaves (inp : Input) (H : PlainOk inp) : ∀ e ∈ specRT inp, e ∈ obsRT inp :=
+  specRT_sub_obsRT inp H
+
 /-- -way only selects which methods are emitted; the plan itself does not depend on it -/
 theorem C05_way (inp : Input) (w : Way) :
     plan { inp with way := w } = plan inp ∧
@@ -360,6 +368,7 @@ example : ((plan exWF).toStmts.map (fun c => (c.rd.name, c.wr.name, c.strat))) =
 example : ((plan exWF).fromStmts.map (fun c => (c.rd.name, c.wr.name, c.strat))) =
     [("Id", "ID", .conv), ("Name", "Name", .assign), ("Sub", "Sub", .sub false true)] := by decide
 example : obs05 exWF = spec05 exWF := by decide
+example : specRT exWF = [("rt:Name", "Name")] := by decide
 
 /-! ### finding regions: the unchanged code violates the property there -/
 
